@@ -219,8 +219,32 @@ def error_path(ctx: Ctx):
         ctx.unknown("R5.5", PARSE, "no raise found in parse_ccsds_packet")
 
 
+def views(ctx: Ctx):
+    """R5.view: for every number of decoded items 0..10 (header only partly decoded, exactly the header, header plus user
+    data) the header view is the first seven items and the user-data view is the rest - in order, nothing twice."""
+    h = X.harness(ctx.prog)
+    site = "packets.py::CCSDSPacket::header/user_data"
+    bad = None
+    try:
+        for n in range(0, 11):
+            items = {f"P{i}": h.val("Int", 10 + i) for i in range(n)}
+            p = h.packet(b"", items)
+            kh, hv = h.outcome("p.header", DEF, p=p)
+            ku, uv = h.outcome("p.user_data", DEF, p=p)
+            want_h, want_u = list(items)[:7], list(items)[7:]
+            if kh != "ok" or ku != "ok" or list(hv) != want_h or list(uv) != want_u:
+                bad = (f"a packet with {n} decoded items has header view {list(hv) if kh == 'ok' else hv} and user-data view "
+                       f"{list(uv) if ku == 'ok' else uv}; the first seven items are the header, the rest ({want_u}) the user data")
+                break
+    except Unsupported as e:
+        ctx.unknown("R5.view", site, str(e))
+        return
+    ctx.decide(bad is None, "R5.view", site, "item counts 0..10 split 7 | rest", bad or "")
+
+
 def check(ctx: Ctx) -> None:
     ctx.guard("R5.1", PARSE, table, ctx)
+    ctx.guard("R5.view", "packets.py::CCSDSPacket", views, ctx)
     ctx.guard("R5.5", PARSE, error_path, ctx)
 
 
@@ -257,7 +281,7 @@ SPEC = PropSpec(
     pid="C05",
     title="Container inheritance selects the unique matching structure, in order",
     check=check,
-    floors={"R5.1": 19, "R5.5": 2},
+    floors={"R5.1": 19, "R5.5": 2, "R5.view": 1},
     explanation=("Decision table of the descend loop by abstract interpretation: a checker-authored tree (abstract root with "
                  "eight children; an abstract and two concrete second-level containers with 0/1/2 satisfiable children; "
                  "a nested container referenced twice; an unconditional child whose BaseContainer has no "
